@@ -444,6 +444,21 @@ def gen_curve(rng, n, tier):
 
 
 # --------------------------------------------------------------------------- crafted curve inputs
+
+def g2_subfield_y_xs(count=4):
+    """G2 abscissas x = a + b*u for which x^3 + 4(1+u) lies in Fq (3a^2 b - b^3 = -4): the ordinate is then in Fq (zero imaginary part)
+    or in u*Fq (zero real part), so the choice between y and -y is decided by the SECOND comparison of Fq2::compare"""
+    out = []
+    for b in range(1, 80):
+        t = ((b ** 3 - 4) * pow(3 * b, -1, Q)) % Q
+        if pow(t, (Q - 1) // 2, Q) != 1: continue
+        a = pow(t, (Q + 1) // 4, Q)
+        for aa in (a, Q - a):
+            y2 = (aa ** 3 - 3 * aa * b * b + 4) % Q
+            kind = "real" if pow(y2, (Q - 1) // 2, Q) == 1 else "imag"
+            if sum(1 for o in out if o[2] == kind) < count: out.append((aa, b, kind))
+    return out
+
 _CRAFT = {}
 def crafted_nonresidue_xs(count=2):
     """G1 abscissas x' with x'^3 + 4 a NON-residue for which the 'square root' candidate y' = (x'^3+4)^((q+1)/4) gives a pair
@@ -810,6 +825,13 @@ def gen_encoding(rng, n, tier):
         xg = E.gen[0]
         for al_ in ("a", "b"): L.append("fromx %s %s 0 %s" % (g, F.hex(xg), al_))
         L.append("fromx %s %s 0" % (g, F.hex(F.zero)))
+        if g == "g2":
+            for (aa, bb, kind) in g2_subfield_y_xs(3):
+                xb = bytearray(bb.to_bytes(48, "big") + aa.to_bytes(48, "big"))
+                for gr in (0, 1):
+                    L.append("fromx g2 %s %d" % (F.hex((aa, bb)), gr))
+                    cb = bytearray(xb); cb[0] |= 0x80 | (0x20 if gr else 0)
+                    L.append("dec g2 c 0 %s" % bytes(cb).hex()); L.append("dec g2 c 1 %s" % bytes(cb).hex())
     return L
 
 def gen_sampling(rng, n, tier):
@@ -835,6 +857,9 @@ def gen_sampling(rng, n, tier):
     for v in (682279, 6673924663):
         h = v.to_bytes(48, "big").hex(); L.append("g1_hash %s" % h); L.append("id_hash %s" % h)
     L.append("g2_hash %s" % ("ff" * 96)); L.append("g2_hash %s" % ("00" * 96))
+    # hashes whose first candidate abscissa has its ordinate in Fq or in u*Fq (the sign choice falls to the second comparison of Fq2::compare)
+    for (aa, bb, kind) in g2_subfield_y_xs(3):
+        L.append("g2_hash %s" % (bb.to_bytes(48, "big") + aa.to_bytes(48, "big")).hex())
     for _ in range(max(2, n // 4)):
         L.append("g1_rand %s" % bytes(rng.getrandbits(8) for _ in range(49 * 128)).hex())
         L.append("g2_rand %s" % bytes(rng.getrandbits(8) for _ in range(97 * 128)).hex())
